@@ -310,6 +310,9 @@ func c09Run(f []string) string {
 	if a, ok := c09R4bRun(f); ok {
 		return a
 	}
+	if a, ok := c09R4cRun(f); ok {
+		return a
+	}
 	return "bad-op"
 }
 
@@ -814,6 +817,8 @@ func c09Gen(r *Rand, tier string) []string {
 	out = append(out, c09R4Gen(r, tier)...)
 	// round 4b: the exact list of syntax errors (kind, index, text, order) against the declarative `synErrs`
 	out = append(out, c09R4bGen(r, tier)...)
+	// round 4c: the world-relative fragment (format, binders, time helpers) against the tree semantics with binders
+	out = append(out, c09R4cGen(r, tier)...)
 	return out
 }
 
@@ -905,6 +910,13 @@ func c09Stats(cases []string) map[string]int {
 			for _, tok := range strings.Split(f[2], ",") {
 				if strings.HasPrefix(tok, "C:") {
 					st["stree.fn."+string(UnHex(strings.Split(tok, ":")[1]))]++
+				}
+			}
+		case "wtree", "wtreex":
+			st[f[0]+".nodes"] += strings.Count(f[2], ",") + 1
+			for _, tok := range strings.Split(f[2], ",") {
+				if strings.HasPrefix(tok, "C:") {
+					st["wtree.fn."+string(UnHex(strings.Split(tok, ":")[1]))]++
 				}
 			}
 		case "tree":
